@@ -72,7 +72,7 @@ struct Case
 
 constexpr int     kMaxCap    = 256;
 constexpr int     kMaxElems  = 320;
-constexpr int64_t kMaxTtlMs  = 100000;
+constexpr int64_t kMaxTtlMs  = 1'000'000'000'000ll; // 1e12 ms (31 years): now + ttl still fits the clock's 64-bit nanoseconds
 constexpr int64_t kMaxAdvNs  = 200'000'000'000ll;
 
 inline int64_t clampi(int64_t v, int64_t lo, int64_t hi) { return v < lo ? lo : v > hi ? hi : v; }
